@@ -59,6 +59,13 @@ func Run() bool {
 }
 
 func launch(name string) {
+	// Listen for the daemon's Done() before the daemon exists: the signal may
+	// arrive at any moment after cmd.Start(), and an interrupt nobody listens
+	// for would kill the launcher and make Launch() report a failure.
+	interrupt := make(chan os.Signal, 1)
+	signal.Notify(interrupt, os.Interrupt)
+	defer signal.Stop(interrupt)
+
 	cmd := exec.Command(os.Args[0])
 	cmd.Env = append(os.Environ(), envDaemonName+"="+name, envDaemonFlag+"=isDaemon")
 	if err := cmd.Start(); err != nil {
@@ -77,9 +84,6 @@ func launch(name string) {
 		close(finished)
 	}()
 
-	interrupt := make(chan os.Signal, 1)
-	signal.Notify(interrupt, os.Interrupt)
-	defer signal.Stop(interrupt)
 	select {
 	case <-finished:
 	case <-interrupt:
